@@ -21,10 +21,28 @@ pub enum Number {
 impl Number {
     pub fn negate(&self) -> Option<Self> {
         use Number::*;
+
+        // the operand can itself be the result of a fold and already carry a sign
+        fn flip(digits: &str) -> String {
+            match digits.strip_prefix('-') {
+                Some(positive) => positive.to_owned(),
+                None => "-".to_owned() + digits,
+            }
+        }
+
+        // an integer zero has no sign
+        fn flip_integer(digits: &str) -> String {
+            if digits.bytes().all(|digit| digit == b'0') {
+                digits.to_owned()
+            } else {
+                flip(digits)
+            }
+        }
+
         Some(match self {
-            Integer(x) => Integer("-".to_owned() + x),
-            BigInt(x) => Integer("-".to_owned() + x),
-            Float(x) => Float("-".to_owned() + x),
+            Integer(x) => Integer(flip_integer(x)),
+            BigInt(x) => BigInt(flip_integer(x)),
+            Float(x) => Float(flip(x)),
             Byte(_) => return None,
         })
     }
